@@ -99,7 +99,7 @@ var targets = []Target{
 		Module: "Gen_protokind",
 		Dir:    "proto",
 		Mode:   "abs",
-		Funcs: []string{"Type.TypeToKind", "Type.IsPacked", "Type.NeedVarint", "Type.IsInt", "TypeDescriptor.IsPacked", "TypeDescriptor.IsMap",
+		Funcs: []string{"Type.TypeToKind", "Type.IsPacked", "TypeDescriptor.IsPacked", "TypeDescriptor.IsMap",
 			"TypeDescriptor.IsList", "TypeDescriptor.WireType"},
 		Tables: []string{"Kind2Wire"},
 	},
